@@ -133,7 +133,7 @@ func main() {
 	if os.Getenv("AVROCHECK_WA") != "" {
 		for _, ct := range P.CodecTypes() {
 			for _, m := range []string{"Read", "Skip", "Write"} {
-				n, probs, _ := methodAutomaton(P, ct.M[m], m, false)
+				n, probs, _ := methodAutomaton(P, ct.M[m], m, 0)
 				fmt.Printf("%-30s %-5s %v %v\n", ct.Name, m, n.words(6, 12), probs)
 			}
 		}
